@@ -29,6 +29,9 @@ def build_tree(rng, root, idx):
             continue
         if rng.random() < 0.08 and name.endswith(".slice"):
             open(full, "wb").write(b"module Bad\xff\xfe\n")
+        elif rng.random() < 0.2:
+            # a file with nothing in it for the compiler: empty, a comment, everything inside a region that is not selected -- a file of the set like any other
+            open(full, "w").write(rng.choice(["", "\n", "// nothing here\n", "#if LEGACY\nmodule Old%d\nstruct Gone {}\n#endif\n" % n, "/* only a comment */"]))
         else:
             open(full, "w").write("module M%d_%d\nstruct S%d {}\n" % (idx, n, n))
         files.append(p)
@@ -179,10 +182,20 @@ def run(ck):
             metas.append((root, srcs, refs))
         o = core.run_impl("fileset", lines, chunk=40, timeout=300)
         m = core.run_model("fileset", mlines, chunk=300)
+        # which of the paths the compiler was handed hold nothing for it (read while the trees are still there)
+        blank = {}
+        for (root, srcs, refs), oo in zip(metas, o):
+            for part in oo.split(" || ")[0].split(" "):
+                if part.count(":") == 2:
+                    pth = unhx(part.split(":")[1])
+                    try:
+                        blank[(root, pth)] = "module M" not in open(os.path.join(root, pth), encoding="utf-8", errors="replace").read()
+                    except OSError:
+                        blank[(root, pth)] = False
     finally:
         shutil.rmtree(base, ignore_errors=True)
     ck.stream("filesets", description="random directory trees (depth <= 4; .slice and other files, names like '.slice', 'x.y.slice', 'f.slice.bak', 'h.SLICE', names with commas, '=' and spaces, directories named '*.slice', the argument lists passed through the command-line parser, "
-              "non-UTF-8 files, symbolic links to files, to directories and to nothing) x argument lists that alias the same file through './', '..', '//', '..' after a link to a directory (next to the file the text seems to name), absolute paths and links, in both lists, with repeats, "
+              "non-UTF-8 files, empty and comment-only files, symbolic links to files, to directories and to nothing) x argument lists that alias the same file through './', '..', '//', '..' after a link to a directory (next to the file the text seems to name), absolute paths and links, in both lists, with repeats, "
               "with a source also given as a reference, with directories as references. compile_from_options in that tree vs the model fed with the file system's answers (kind, canonical identity, directory "
               "listing in the OS's order, readability): the compiled files with their roles in order, every error and DuplicateFile warning, and that nothing is parsed after an error.")
     for (root, srcs, refs), line, oo, mo in zip(metas, lines, o, m):
@@ -225,7 +238,8 @@ def run(ck):
         parsed = [p for _, p, x in files if x == "1"]
         if mparts[2] == "parses=0" and (parsed or other):
             ck.violation("filesets", "parsed-despite-io-error", case, "nothing is parsed", "parsed %s; %s" % ([unhx(p) for p in parsed], [d["code"] for d in other]))
-        if mparts[2] == "parses=1" and len(parsed) != len(files):
+        # (a file with nothing in it for the compiler shows no module and no definitions although it was parsed)
+        if mparts[2] == "parses=1" and any(x != "1" and not blank.get((root, unhx(p)), False) for _, p, x in files):
             ck.violation("filesets", "not-parsed", case, "every file parsed", "parsed %d of %d; %s" % (len(parsed), len(files), [d["msg"] for d in other][:2]))
     ck.samples.append({"stream": "filesets", "case": lines[0][:300], "impl": o[0][:300], "model": m[0][:300]})
     ck.extra["rule"] = "%d random trees and argument lists; distinct by case text" % n
